@@ -61,3 +61,57 @@ Example C10_examples :
   /\ wf_check [(1%N, PStar (PSeq (PTok 7%N) (POpt (PRule 1%N))))] [1%N] = true
   /\ wf_check [(1%N, PStar (POpt (PTok 7%N)))] [1%N] = false.
 Proof. vm_compute. repeat split; reflexivity. Qed.
+
+(* ------------------------------------------------------------------------------------------ round 2 *)
+From Scenic Require Import C10.FrontendFixed C10.FrontendFixedProofs C10.LeftRec C10.LeftRecProofs.
+
+(* the REPAIRED protocol (branch fix-C10-veneer-activate: veneer.activate does everything that can raise before it changes a
+   global; _scenarioFromStream deactivates only what was activated): for ALL options, ALL import trees and ALL raise points -
+   no top_safe / nested_safe hypotheses - the veneer ends in the initial inactive state and the reported exception is the
+   first one raised in program order, never an AssertionError / IndexError of the protocol itself.
+   (C10_veneer_not_restored_early_raise above stays as the refuted lemma about the original protocol.) *)
+Theorem C10_veneer_restored_always_repaired : forall o r id imps,
+  scenario_from_stream_fixed o r id imps s0 = (option_map EUser (first_raise r imps), s0).
+Proof. exact scenario_from_stream_fixed_spec. Qed.
+Print Assumptions C10_veneer_restored_always_repaired.
+
+Theorem C10_veneer_inactive_after_repaired : forall o r id imps, snd (scenario_from_stream_fixed o r id imps s0) = s0.
+Proof. exact veneer_inactive_after_fixed. Qed.
+Print Assumptions C10_veneer_inactive_after_repaired.
+
+Theorem C10_veneer_reports_user_exception_repaired : forall o r id imps e,
+  fst (scenario_from_stream_fixed o r id imps s0) = Some e -> exists st', e = EUser st' /\ first_raise r imps = Some st'.
+Proof. exact veneer_reports_user_fixed. Qed.
+Print Assumptions C10_veneer_reports_user_exception_repaired.
+
+(* both protocols agree wherever the original one recovers *)
+Theorem C10_repaired_agrees_on_safe_points : forall o r id imps, top_safe r = true -> nested_safe imps = true ->
+  scenario_from_stream_fixed o r id imps s0 = scenario_from_stream o r id imps s0.
+Proof. exact fixed_agrees_on_safe. Qed.
+Print Assumptions C10_repaired_agrees_on_safe_points.
+
+(* left recursion: the leftmost-call graph analysis is sound for same-input invocations, and a grammar that passes the rank
+   certificate has no cycle of same-input invocations that avoids pegen's memoised left-recursive leaders
+   (instantiated on the regenerated scenic.gram in gen/C10Grammar.v: G_lr by vm_compute, G_cycles_through_leaders by exact) *)
+Theorem C10_first_calls_sound : forall G tbl, closed G tbl = true ->
+  forall T e (s : list T) r, inv0 G T e s r -> lreach G tbl (first_calls tbl e) r.
+Proof. exact first_calls_sound. Qed.
+Print Assumptions C10_first_calls_sound.
+
+Theorem C10_lr_check_sound : forall G tbl leaders rank, lr_check G tbl leaders rank = true ->
+  forall r0 mid, is_path (lstep G tbl) r0 mid r0 -> exists x, In x (r0 :: mid) /\ memN x leaders = true.
+Proof. exact lr_check_sound. Qed.
+Print Assumptions C10_lr_check_sound.
+
+Theorem C10_lr_check_sound_semantic : forall G tbl leaders rank, closed G tbl = true -> lr_check G tbl leaders rank = true ->
+  forall T (s : list T) r0 mid, is_path (sstep G T s) r0 mid r0 -> exists x, In x (r0 :: mid) /\ memN x leaders = true.
+Proof. exact lr_check_sound_chain. Qed.
+Print Assumptions C10_lr_check_sound_semantic.
+
+Example C10_examples_round2 :
+  scenario_from_stream_fixed default_opts (Some RNamespace) 1%N MNil s0 = (Some (EUser RNamespace), s0)
+  /\ scenario_from_stream_fixed (Opts true [5%N] None) (Some RActAfterIncr) 1%N MNil s0 = (Some (EUser RActAfterIncr), s0)
+  /\ scenario_from_stream_fixed default_opts None 1%N (MCons (Some RActAfterIncr) 2%N MNil MNil) s0 = (Some (EUser RActAfterIncr), s0)
+  /\ lr_check [(1%N, PAlt (PSeq (PRule 1%N) (PSeq (PTok 7%N) (PRule 2%N))) (PRule 2%N)); (2%N, PTok 8%N)] [] [1%N] [(2%N, 0%N)] = true
+  /\ lr_check [(1%N, PAlt (PSeq (PRule 1%N) (PSeq (PTok 7%N) (PRule 2%N))) (PRule 2%N)); (2%N, PTok 8%N)] [] [] [(1%N, 1%N); (2%N, 0%N)] = false.
+Proof. vm_compute. repeat split; reflexivity. Qed.
